@@ -140,17 +140,17 @@ func cmdRun(args []string) int {
 		ex.workers = *workers
 		ex.solverK = *solverK
 		ex.verbose = *verbose
-		ex.timeout = 20_000
+		ex.timeout = 3_000
 		ex.maxPaths = 200_000
 		budget := 15 * time.Minute
 		if cfg.Thorough {
-			ex.timeout = 120_000
+			ex.timeout = 10_000
 			ex.maxPaths = 2_000_000
 			budget = 90 * time.Minute
 		}
-		ex.fbTimeout = 60
+		ex.fbTimeout = 150
 		if cfg.Thorough {
-			ex.fbTimeout = 300
+			ex.fbTimeout = 600
 		}
 		if v, ok := e.Opts["first_ms"]; ok {
 			// short incremental attempt, then the portfolio fall-back
@@ -217,7 +217,7 @@ func cmdRun(args []string) int {
 				why = append(why, "engine: "+strings.Join(firstN(ex.engineErrs, 2), "; "))
 			}
 			if ex.sstats.Errors > 0 {
-				why = append(why, "solver printed (error lines")
+				why = append(why, "solver printed (error lines: "+ex.sstats.FirstError)
 			}
 			for _, lbl := range reachFor(h, e) {
 				if ex.reach[lbl] == 0 {
